@@ -5,7 +5,7 @@ TIER=${1:-quick}
 cd "$(dirname "$0")/.."
 if [ -n "$(git -C /repo status --porcelain)" ]; then echo "/repo is not clean"; exit 2; fi
 for d in seeded/*/; do
-  name=$(basename "$d"); id=$(python3 -c "import json;print(json.load(open('$d/meta.json'))['property'])")
+  name=$(basename "$d"); id=$(python3 -c "import json;m=json.load(open('$d/meta.json'));print(m.get('check_with',m['property']))")
   git -C /repo apply "$PWD/${d}patch.diff" || { echo "$name: patch does not apply"; continue; }
   out=$(./check "$id" --tier "$TIER" 2>&1); rc=$?
   git -C /repo checkout -- .
